@@ -148,3 +148,48 @@ package base
 //@   loopwrites Vars
 //@   loop 0 invariant chain: nexp == rangeindex + 2 && 1 <= nexp && nexp <= 1 + len(i.ElseIfStmtList) && ran == 0 && !lerr && !lastc
 //@   loop 0 decreases len(i.ElseIfStmtList) - rangeindex
+
+// ---------------------------------------------------------------------------
+// for init; cond; step { body }   (C02 automaton, C09 cut-off variant)
+//   phase: 0 init pending, 1 cond pending, 2 body pending (cond was true), 3 step pending, 9 finished
+//@ func (*ForStmt).Evaluate
+//@   props C02 C09
+//@   ghost phase int = 0
+//@   ghost be error = nil
+//@   ghost bf bool = false
+//@   ghost bv rv = RV_zero()
+//@   ghost condfalse bool = false
+//@   ghost last int = 0
+//@   oncall (*Assignment).Evaluate
+//@     assert [C02] initstep: (phase == 0 && recv == forStmt.Assignments[0]) || (phase == 3 && recv == forStmt.Assignments[1])
+//@     after phase := ite(callresult.1 != nil, 9, 1)
+//@     after be := callresult.1
+//@     after last := 1
+//@   oncall (*Expression).Evaluate
+//@     assert [C02] condbeforeiter: phase == 1 && recv == forStmt.Expression
+//@     after phase := ite(callresult.1 == nil && rv_bool(callresult.0), 2, 9)
+//@     after condfalse := callresult.1 == nil && !rv_bool(callresult.0)
+//@     after be := callresult.1
+//@     after last := 2
+//@   oncall (*Statements).Evaluate
+//@     assert [C02] bodyaftertruecond: phase == 2 && recv == forStmt.StatementList
+//@     after phase := ite((callresult.1 == nil && !callresult.2) || callresult.1 == CONTINUEFLAG, 3, 9)
+//@     after be := callresult.1
+//@     after bf := callresult.2
+//@     after bv := callresult.0
+//@     after last := 3
+//@   ensures [C02] condends: condfalse ==> result.1 == nil && !result.2
+//@   ensures [C02] breakends: phase == 9 && last == 3 && be == BREAKFLAG ==> result.1 == nil && !result.2
+//@   ensures [C02] returnends: phase == 9 && last == 3 && be == nil && bf ==> result.1 == nil && result.2 && result.0 == bv
+//@   ensures [C02] errorends: phase == 9 && be != nil && !(last == 3 && be == BREAKFLAG) ==> result.1 == be && !result.2
+//@   ensures [C02,C09] neverpending: phase == 9 || phase == 0 || (phase == 2 && forStmt.StatementList == nil) || (phase == 1 && result.1 != nil)
+//@   modifies frame evalframe
+//@   loopwrites Vars
+//@   loop 0 invariant auto: phase == 1 && 0 <= iCount && iCount <= 10000 && !condfalse && len(forStmt.Assignments) >= 2
+//@   loop 0 decreases 10001 - iCount
+
+//@ func (*Assignment).Evaluate
+//@   props C02 C09
+//@   ensures true
+//@   modifies frame evalframe
+//@   trusted assignment contract pending
